@@ -133,6 +133,29 @@ def parse(path: str, auto_pad=True, validate_alignment=True, import_coredefs=Fal
         os.chdir(cwd)
 
 
+def make_parser(auto_pad=True, validate_alignment=True, import_coredefs=False):
+    from pyrtma.parser import Parser
+    p = Parser(validate_alignment=validate_alignment, auto_pad=auto_pad, import_coredefs=import_coredefs)
+    for h in list(p.logger.handlers):
+        p.logger.removeHandler(h)
+    return p
+
+
+def parse_on(p, path: str):
+    """parse with a parser object that already exists (other parsers may have been created since)"""
+    cwd = os.getcwd()
+    try:
+        with Silence():
+            p.parse(path)
+        return p, None
+    except BaseException as e:  # noqa
+        if isinstance(e, (KeyboardInterrupt, SystemExit)):
+            raise
+        return None, e
+    finally:
+        os.chdir(cwd)
+
+
 def resolve_native(fld) -> Optional[str]:
     """native element type name of a parser Field (through aliases), None for struct/message typed fields"""
     from pyrtma.parser import NativeType, TypeAlias
